@@ -231,6 +231,44 @@ def merge(obls):
   return list(merged.values())
 
 
+def combined_hash(ctr):
+  """Hash of the verified text: the function's own segment and, transitively, the segments of
+  the functions that are *inlined* into it (kind='inline' contracts: their real body is executed
+  at every use, so a change there changes this function's obligations)."""
+  import hashlib
+  from pyvc import contract as C, loader
+  seen = {}
+  def visit(c):
+    if c.id in seen or c.abstract:
+      return
+    if getattr(c, 'node', None) is None:
+      try:
+        loader.bind_ast(c)
+      except Exception:   # pylint: disable=broad-except
+        return
+    seen[c.id] = getattr(c, 'hash', None)
+    import ast
+    for n in ast.walk(c.node):
+      nm = None
+      if isinstance(n, ast.Call):
+        f = n.func
+        nm = f.attr if isinstance(f, ast.Attribute) else (f.id if isinstance(f, ast.Name) else None)
+      elif isinstance(n, ast.Attribute):
+        nm = n.attr            # inlined properties
+      if nm:
+        for k in C.lookup_method(nm):
+          if k.kind == 'inline':
+            visit(k)
+  visit(ctr)
+  own = seen.pop(ctr.id, None)
+  if own is None:
+    return None
+  if not seen:
+    return own
+  h = hashlib.sha256((own + ''.join(f'{k}={v}' for k, v in sorted(seen.items()))).encode()).hexdigest()[:16]
+  return h
+
+
 def verify_function(cid, timeout_ms=10000, node_override=None, canary=True):
   """Verifies the function of contract `cid` against its contract."""
   ctr = C.REGISTRY[cid]
@@ -238,7 +276,7 @@ def verify_function(cid, timeout_ms=10000, node_override=None, canary=True):
   t0 = time.time()
   try:
     node = node_override if node_override is not None else loader.bind_ast(ctr)
-    res.hash = getattr(ctr, 'hash', None)
+    res.hash = combined_hash(ctr)
     ex = Exec(node, ctr)
     obls = ex.run()
     res.paths = ex.paths
